@@ -497,6 +497,12 @@ func (r *Resolvable) ResolveDeferBatch(rootData *Object, out io.Writer, outstand
 		}
 	}
 
+	if !shouldSkipIncremental && len(incrementalItems) == 0 && r.hasErrors() {
+		// nothing was deliverable (the fragment's object was nulled by the pre-walk): the errors
+		// collected for it would otherwise be dropped; report them on the completed entry.
+		shouldSkipIncremental = true
+	}
+
 	// Direct children whose anchor survived the render are announced now (lazily)
 	// and scheduled by the caller; the rest are cancelled.
 	liveChildren = r.liveChildDescriptors(r.currentDefer.ID)
